@@ -139,6 +139,10 @@ func GenScn(c *vs.Case, o GenOpts) *Scn {
 		}
 		spec["selector"] = sel
 	}
+	if cfg.Kind == "composite" && cfg.GenerateSelector && c.Bool() {
+		// generateSelector: whatever selector the parent carries itself is ignored
+		spec["selector"] = map[string]any{"matchLabels": map[string]any{"app": "ignored-" + pname}}
+	}
 	// Implicit precondition of rolling updates (controller_revision.go
 	// newControllerRevision, issue #194): ControllerRevisions are labelled from
 	// the parent's spec.template.metadata.labels, so those must satisfy the
